@@ -50,6 +50,7 @@ pub mod capi;
 pub mod capix;
 pub mod capilbl;
 pub mod hostcrash;
+pub mod hostsweep;
 pub mod crash;
 pub mod fault;
 
